@@ -1,10 +1,27 @@
 #!/bin/bash
-# rundemo.sh <demo.rs> [repo]: like tool/demo.sh but prints the panic message of the first failing test
+# rundemo.sh <demo.rs> [repo]: like tool/demo.sh but prints the panic message of the first failing test, enforces a timeout (TMO seconds,
+# default 300) and kills only ITS OWN process group afterwards (a hanging scenario leaves the test binary behind otherwise)
 DEMO=$(readlink -f "$1"); SRC=${2:-/repo}
 W=$(mktemp -d /tmp/verif-demo.XXXXXX); trap 'rm -rf "$W"' EXIT
 rsync -a --exclude target --exclude .git "$SRC"/ "$W"/
 cp "$DEMO" "$W/src/verif_demo.rs"
 HOST=$(sed -n 's,^//@host ,,p' "$DEMO" | head -1); HOST=${HOST:-src/lib.rs}
 printf '\n#[cfg(test)]\n#[path = "%s/src/verif_demo.rs"]\nmod verif_demo;\n' "$W" >> "$W/$HOST"
-cd "$W" && CARGO_TARGET_DIR=/verif/.cache/demo-target CARGO_NET_OFFLINE=true RUST_BACKTRACE=0 timeout ${TMO:-300} cargo test --offline --lib verif_demo 2>&1 | grep -a -E "^error|stdout ----|test result|panicked" -A7 | cut -c1-700 | head -${LINES_:-40}
-pkill amiquip- 2>/dev/null; true
+python3 - "$W" "${TMO:-300}" <<'P' | grep -a -E "^error|stdout ----|test result|panicked|TIMEOUT" -A7 | cut -c1-700 | head -${LINES_:-40}
+import subprocess, os, signal, sys
+w, tmo = sys.argv[1], int(sys.argv[2])
+env = dict(os.environ, CARGO_TARGET_DIR='/verif/.cache/demo-target', CARGO_NET_OFFLINE='true', RUST_BACKTRACE='0')
+p = subprocess.Popen(['cargo', 'test', '--offline', '--lib', 'verif_demo'], cwd=w, env=env, stdout=subprocess.PIPE, stderr=subprocess.STDOUT, start_new_session=True)
+try:
+    out, _ = p.communicate(timeout=tmo)
+except subprocess.TimeoutExpired:
+    os.killpg(p.pid, signal.SIGKILL)
+    out, _ = p.communicate()
+    out += b'\nTIMEOUT: the scenario did not finish within %d s\n' % tmo
+try:
+    os.killpg(p.pid, signal.SIGKILL)
+except ProcessLookupError:
+    pass
+sys.stdout.write(out.decode('utf-8', 'replace'))
+P
+true
